@@ -1,58 +1,76 @@
 #!/venv/bin/python
-"""Copy confirmed seeded changes from /tmp/seeded-out/<Cxx>/ into /verif/seeded/<Cxx>-<k>/ and write seeded/RESULTS.md.
-A change is 'confirmed' when its evaluation shows: demo exits 0 on the clean copy, the patch applies, the pinned suite still gives
-'10 failed, 42 passed', and the demo exits 1 with the patch."""
+"""Copy confirmed seeded changes from the sub-agents' output directories into /verif/seeded/<id>/ and write seeded/RESULTS.md.
+A change is 'confirmed' when its evaluation (selftest/seeded.py) shows: demo exits 0 on the clean copy, the patch applies, the pinned suite
+still gives '10 failed, 42 passed', and the demo exits 1 with the patch.  Two evaluations are recorded per change: 'first' (the checks as
+they were when the change arrived) and 'after' (the target property's quick check after the strengthening the round prompted)."""
 import glob
 import json
 import os
 import shutil
 
-SRC = "/tmp/seeded-out"
+ROUNDS = [("r1", "/tmp/seeded-out", "all 20 quick checks"), ("r2", "/tmp/seeded-out2", "target property + C15")]
 DST = "/verif/seeded"
+
+
+def last_json(path):
+    try:
+        return json.loads(open(path).read().strip().splitlines()[-1])
+    except Exception:   # noqa
+        return None
 
 
 def main():
     os.makedirs(DST, exist_ok=True)
     rows = []
-    for d in sorted(glob.glob(os.path.join(SRC, "C??"))):
-        pid = os.path.basename(d)
-        for k in (1, 2):
-            ev = os.path.join(d, "eval%d.json" % k)
-            if not os.path.exists(ev):
-                continue
-            try:
-                e = json.loads(open(ev).read().strip().splitlines()[-1])
-            except Exception:   # noqa
-                continue
-            confirmed = e.get("demo_clean") == 0 and e.get("applies") and e.get("demo_patched") == 1 and str(e.get("tests", "")).startswith("10 failed, 42 passed")
-            sid = "%s-%d" % (pid, k)
-            caught = [c["property"] for c in e.get("caught_by", [])]
-            rows.append((sid, pid, confirmed, caught, e))
-            if not confirmed:
-                continue
-            out = os.path.join(DST, sid)
-            os.makedirs(out, exist_ok=True)
-            shutil.copy(os.path.join(d, "change%d.diff" % k), os.path.join(out, "patch.diff"))
-            shutil.copy(os.path.join(d, "demo%d.py" % k), os.path.join(out, "demo.py"))
-            notes = open(os.path.join(d, "notes%d.md" % k)).read() if os.path.exists(os.path.join(d, "notes%d.md" % k)) else ""
-            shutil.copy(os.path.join(d, "notes%d.md" % k), os.path.join(out, "notes.md")) if notes else None
-            meta = dict(id=sid, breaks_property=pid, source="independent sub-agent given only the property text and a scratch worktree",
-                        needs_to_manifest=notes.strip()[:1500],
-                        verified=dict(demo_on_clean_copy_exit=e["demo_clean"], patch_applies=e["applies"], pinned_suite=e["tests"], demo_with_patch_exit=e["demo_patched"],
-                                      command="selftest/seeded.py seeded/%s/patch.diff seeded/%s/demo.py --all --tier quick" % (sid, sid)),
-                        quick_checks_that_catch_it=e.get("caught_by", []), quick_checks_run=20,
-                        caught_by_target_property=pid in caught)
-            json.dump(meta, open(os.path.join(out, "meta.json"), "w"), indent=1)
+    for rnd, src, scope in ROUNDS:
+        for d in sorted(glob.glob(os.path.join(src, "C??"))):
+            pid = os.path.basename(d)
+            for k in (1, 2):
+                e = last_json(os.path.join(d, "eval%d.json" % k))
+                if e is None:
+                    continue
+                a = last_json(os.path.join(d, "evalafter%d.json" % k)) or {}
+                confirmed = e.get("demo_clean") == 0 and e.get("applies") and e.get("demo_patched") == 1 and str(e.get("tests", "")).startswith("10 failed, 42 passed")
+                sid = "%s-%s-%d" % (pid, rnd, k)
+                first = [c["property"] for c in e.get("caught_by", [])]
+                after = [c["property"] for c in a.get("caught_by", [])]
+                rows.append((sid, pid, rnd, confirmed, first, after, scope, a))
+                if not confirmed:
+                    continue
+                out = os.path.join(DST, sid)
+                os.makedirs(out, exist_ok=True)
+                shutil.copy(os.path.join(d, "change%d.diff" % k), os.path.join(out, "patch.diff"))
+                shutil.copy(os.path.join(d, "demo%d.py" % k), os.path.join(out, "demo.py"))
+                np_ = os.path.join(d, "notes%d.md" % k)
+                notes = open(np_).read() if os.path.exists(np_) else ""
+                if notes:
+                    shutil.copy(np_, os.path.join(out, "notes.md"))
+                meta = dict(id=sid, breaks_property=pid, round=rnd,
+                            source="independent sub-agent given only the property text and its own scratch worktree" + (
+                                "; told to assume a straightforward random test on fresh objects of <=60 residues already exists" if rnd == "r2" else ""),
+                            needs_to_manifest=notes.strip()[:1800],
+                            verified=dict(demo_on_clean_copy_exit=e["demo_clean"], patch_applies=e["applies"], pinned_suite=e["tests"], demo_with_patch_exit=e["demo_patched"],
+                                          how="selftest/seeded.py seeded/%s/patch.diff seeded/%s/demo.py --props %s  (scratch copy of /repo, VERIF_REPO)" % (sid, sid, pid)),
+                            first_evaluation=dict(scope=scope, caught_by=e.get("caught_by", []), missed_by=e.get("missed_by", [])),
+                            after_strengthening=dict(scope="target property quick check", caught_by=a.get("caught_by", []), missed_by=a.get("missed_by", [])),
+                            caught_by_target_now=pid in after)
+                json.dump(meta, open(os.path.join(out, "meta.json"), "w"), indent=1)
     with open(os.path.join(DST, "RESULTS.md"), "w") as f:
-        f.write("# Independently seeded changes vs the quick checks\n\n"
-                "Each row: a change produced by a fresh sub-agent that saw only the property text. 'confirmed' = demo passes on the clean tree, patch applies,\n"
-                "pinned suite unchanged (10 failed, 42 passed), demo fails with the patch. 'caught by' = quick checks that exit 1 with a VIOLATION line\n"
-                "when pointed at a scratch copy carrying the patch (all 20 quick checks were run against every change).\n\n"
-                "| change | target | confirmed | caught by target | caught by (quick tier) |\n|---|---|---|---|---|\n")
-        for sid, pid, conf, caught, e in rows:
-            f.write("| %s | %s | %s | %s | %s |\n" % (sid, pid, "yes" if conf else "NO", "yes" if pid in caught else "**no**", ", ".join(caught) or "—"))
-    print("%d rows, %d confirmed, %d caught by target, %d caught by some check" % (
-        len(rows), sum(1 for r in rows if r[2]), sum(1 for r in rows if r[2] and r[1] in r[3]), sum(1 for r in rows if r[2] and r[3])))
+        f.write("# Independently seeded changes vs the checks\n\n"
+                "Each row is a change produced by a fresh sub-agent that saw only the text of one property (round r2 agents were additionally told to\n"
+                "assume that a straightforward random test on fresh objects of <=60 residues already exists). 'confirmed' = demo passes on a clean copy,\n"
+                "patch applies, pinned suite unchanged (10 failed, 42 passed), demo fails with the patch. 'first evaluation' = quick checks that raised\n"
+                "a VIOLATION when the change arrived (r1: all 20 quick checks were run; r2: only the target property and C15). 'target now' = does the\n"
+                "target property's own quick check catch it after the strengthening described in DESIGN.md 9.3 / 9.7, and in which buckets.\n\n"
+                "| change | target | confirmed | first evaluation: caught by | target now | buckets |\n|---|---|---|---|---|---|\n")
+        for sid, pid, rnd, conf, first, after, scope, a in rows:
+            buckets = "; ".join(b for c in a.get("caught_by", []) for b in c.get("buckets", [])[:2])
+            f.write("| %s | %s | %s | %s | %s | %s |\n" % (sid, pid, "yes" if conf else "NO", ", ".join(first) or "—", "yes" if pid in after else "**no**", buckets))
+        n = len(rows)
+        f.write("\nTotals: %d changes, %d confirmed; caught by the target check at first evaluation: %d; caught by some check at first evaluation: %d; "
+                "caught by the target check now: %d.\n" % (n, sum(1 for r in rows if r[3]), sum(1 for r in rows if r[1] in r[4]), sum(1 for r in rows if r[4]),
+                                                       sum(1 for r in rows if r[1] in r[5])))
+    print(open(os.path.join(DST, "RESULTS.md")).read()[-400:])
 
 
 if __name__ == "__main__":
